@@ -326,6 +326,7 @@ inline void prop_c06(const vf::Case& c, Ctx& ctx)
     ctx.label(v2 ? "family=2.x" : "family=1.x");
     auto db = e::create_temporary_database(schema);
     std::vector<TrackModel> tracks;
+    std::vector<dj::track> alt;
     std::string hist = "schema " + sname(schema) + ":";
     size_t rec = 1;
     for (size_t i = 0; i < nt; ++i, ++rec)
@@ -353,6 +354,11 @@ inline void prop_c06(const vf::Case& c, Ctx& ctx)
         if (v2)
             snap.waveform = expected_waveform_v2(snap.waveform, expected(schema, snap).sample_count, expected(schema, snap).sample_rate);
         tracks.push_back(TrackModel{*tr, snap, ""});
+        // a second handle to the same track, obtained by a separate lookup and kept for the whole history: setters go through either
+        // handle, so whatever a handle keeps to itself (a cached row, a decoded blob) meets writes made through the other one
+        auto second = db.track_by_id(tr->id());
+        VF_CHECK(second.has_value(), hist << ": track_by_id does not find the track just created");
+        alt.push_back(*second);
         hist += " create#" + std::to_string(i);
     }
     for (size_t i = 0; i < tracks.size(); ++i)
@@ -369,8 +375,16 @@ inline void prop_c06(const vf::Case& c, Ctx& ctx)
             continue;
         bool threw = false;
         Fields before_all = fields_via_getters(tracks[ti].handle);
+        bool via_second = s.below(3) == 0;
+        if (via_second)
+            std::swap(tracks[ti].handle, alt[ti]);
         std::string d = apply_setter(k, s, ctx, schema, tracks[ti], threw, ++serial);
-        hist += " | t" + std::to_string(ti) + "." + d;
+        if (via_second)
+        {
+            std::swap(tracks[ti].handle, alt[ti]);
+            ctx.label("setter-via-second-handle");
+        }
+        hist += " | t" + std::to_string(ti) + (via_second ? "'." : ".") + d;
         ctx.label(std::string(v2 ? "2.x:" : "1.x:") + "set_" + setters()[k].name);
         if (threw)
         {
@@ -390,6 +404,18 @@ inline void prop_c06(const vf::Case& c, Ctx& ctx)
         }
         for (size_t i = 0; i < tracks.size(); ++i)
             check_track_against_model(schema, tracks[i], hist + " [track " + std::to_string(i) + "]");
+        // the touched track also as seen through its other handle
+        std::swap(tracks[ti].handle, alt[ti]);
+        try
+        {
+            check_track_against_model(schema, tracks[ti], hist + " [track " + std::to_string(ti) + ", second handle]");
+        }
+        catch (...)
+        {
+            std::swap(tracks[ti].handle, alt[ti]);
+            throw;
+        }
+        std::swap(tracks[ti].handle, alt[ti]);
     }
     ctx.describe = hist;
     ctx.key = hist;
